@@ -3,6 +3,9 @@
 import json, subprocess
 
 CHECKS = {
+ "C13": ("exploration", "exhaustive synonym × position table + generated rules/words under every documented respelling; differential oracle",
+         "Every advertised spelling of every feature, node and suprasegmental name is tried in every syntactic position that takes a matrix (12 in rules, 5 in alias lines) against the first spelling of its group; generated rules are printed in the canonical style and in each alternative style (arrows, `//`, `∅`, ellipsis forms, angle brackets, matrix spaces, trailing comment, Latin alphas, renumbered variables) and generated words are respelled with every documented input alternative; both spellings must give equal outputs or the same error variant.",
+         "Trusted: the transcribed synonym table (the advertised list) and the printer. The doubled-segment respelling is not applied to words containing click-initial graphemes (a copy would be read together with the neighbouring stop as one click segment, which is a different word by the manual).", "DESIGN.md §5 C13"),
  "C12": ("exploration", "differential testing of shorthand rules against mechanically produced expansions (AST transformations) + exhaustive group-letter slice",
          "Condensed rules vs their sub-rules, `_,X` vs `X_ , _X'`, group letters vs the manual's matrices (also exhaustively over all segments), optionals vs the environment set of their explicit repetitions, and `A B > &` vs `A=1 B=2 > 2 1` are generated as pairs on the harness's own AST and applied to the same words; both sides must fail or give structurally equal words.",
          "Trusted: the AST transformations (written from the manual) and the structural hook. The long-segment metathesis divergence is a listed known finding.", "DESIGN.md §5 C12"),
